@@ -237,8 +237,9 @@ def run(prop, tier):
                 a = e["abs"]
                 if any(it["t"] != "c" or it["c"] in (32, 9, 10, 13) for it in a["items"]) or not a["written"]:
                     out.nontriv(_abs_key(e))
-                if len(a["items"]) >= 2:
-                    out.sample({"abs": a, "views": e["views"][:1]}, limit=3)
+                if len(a["items"]) >= 2 and a["ty"] not in ("", "CDATA") and a["layout"] != "one" and \
+                        any(it["t"] == "e" for it in a["items"]) and any(it["t"] == "r" for it in a["items"]):
+                    out.sample({"abs": a, "views": e["views"][1:]}, limit=3)
         stats = {"with_declared_attribute_of_present_element": 0, "with_entity_reference_in_a_value": 0,
                  "entity_nesting_depth_ge_3": 0, "with_several_elements": 0, "with_non_ascii": 0,
                  "with_two_attlists_for_one_element": 0}
